@@ -3,14 +3,16 @@ from pyvc import harness
 
 __all__ = ["CONTRACT_MODULES", "STRUCTURAL", "CORE_QUALS", "A_COMMON", "select_contracts"]
 
-CONTRACT_MODULES = ["contracts.spec_core"]
+CONTRACT_MODULES = ["contracts.spec_value"]
 # obligations every property keeps: write-site frames, callee preconditions, unexpected exceptions, lemmas, loop invariants
-STRUCTURAL = ["frame[", "call-pre.", ".noexc.", ".lemma.", ".loop", "loop0.", "loop1."]
+STRUCTURAL = ["frame[", "call-pre.", ".noexc.", ".lemma.", ".loop", "loop0.", "loop1.", "loop2.", ".cut."]
 
 CORE_QUALS = ["spec_classes.utils.mutation:mutate_attr", "spec_classes.utils.mutation:invalidate_attrs",
               "spec_classes.methods.core:DeepCopyMethod.deepcopy",
               "spec_classes.methods.scalar:WithAttrMethod.with_attr", "spec_classes.methods.scalar:ResetAttrMethod.reset_attr",
-              "spec_classes.methods.toplevel:ResetMethod.reset"]
+              "spec_classes.methods.toplevel:ResetMethod.reset", "spec_classes.utils.mutation:mutate_value",
+              "spec_classes.methods.scalar:UpdateAttrMethod.update_attr", "spec_classes.methods.scalar:TransformAttrMethod.transform_attr",
+              "spec_classes.methods.toplevel:UpdateMethod.update", "spec_classes.methods.toplevel:TransformMethod.transform"]
 
 A_COMMON = [
     "A-META: the metadata of a spec class is a well-formed SpecClassMetadata record (typed flags; attrs: dict name -> Attr record with "
@@ -27,6 +29,10 @@ A_COMMON = [
     "A-LEAF / A-RECV: instances of (subclasses of) immutable built-in scalar types (int, float, str, bytes, bool, module) carry no mutable "
     "state, so handing them on uncopied shares nothing mutable; spec classes and receivers of mutate_attr do not derive from such types",
     "prepare_attr_value is used through an assumed pure contract in the core proofs",
+    "mutate_value: A-PROXY (the lazy proxy's thunk is a pure read), A-CTOR (constructors return a new object or an atom), A-TRANSFORM (a transform "
+    "returns its argument, a new object or an atom), _get_function_args assumed (inspect.signature); scope A-SHARED: the value updated through "
+    "keywords is not a do_not_copy instance, function or module (those are updated in place by design); keyword names are never the "
+    "library's own slots (__spec_class__, __spec_class_initializing__)",
 ]
 
 
